@@ -73,7 +73,7 @@ def check(prog, ctx):
             v2 = []
             r_b, exp_b = expected(prog, env_b)
             compare(env_b, r_b, exp_b, v2)
-            viol += oracles.second(v2)
+            viol += oracles.second(v2, env_b, "C01.value")
             ctx.label("run-twice-on-one-scheduler")
     st = gen.stats(prog)
     nflush = len(env.flushes)
